@@ -26,6 +26,7 @@ import (
 	"github.com/prometheus/alertmanager/notify"
 	"github.com/prometheus/alertmanager/timeinterval"
 
+	"verifharness/appsys"
 	"verifharness/vh"
 )
 
@@ -1280,6 +1281,11 @@ func genContainsCase(r *vh.Rand, nInst int) Case {
 func TestCheck(t *testing.T) {
 	env := vh.GetEnv()
 	run := vh.NewRun(env, "AM.Run.C15Run")
+	// app engine: the REAL application wiring (package app) in real time, in its own process; reports through run.
+	// true = the replay file held an app-engine case and has been handled.
+	if appsys.Part(t, env, run, "C15") {
+		return
+	}
 	rn := &runner{t: t, run: run}
 	var cases []Case
 	if env.Replay != "" {
